@@ -167,6 +167,7 @@ type SideEvent struct {
 type GenResult struct {
 	Exit     int
 	TimedOut bool
+	Touched  map[string]bool // generated files created or modified by this process (observed on the directory)
 	Stdout   []byte
 	Stderr   []byte
 	Side     []SideEvent
@@ -303,6 +304,20 @@ func (t *Tree) Generate(inv Invocation, tag string) (*GenResult, error) {
 	if timeout == 0 {
 		timeout = 300 * time.Second
 	}
+	// What the directory holds before the run: a generated file counts as
+	// written by this process when it is new or its modification time or size
+	// changed (tmpfs timestamps have nanosecond resolution). This does not
+	// depend on which API lox uses to write.
+	type fstat struct {
+		mod  time.Time
+		size int64
+	}
+	before := map[string]fstat{}
+	for _, f := range GenFiles {
+		if st, err := os.Stat(filepath.Join(inv.Dir, f)); err == nil {
+			before[f] = fstat{st.ModTime(), st.Size()}
+		}
+	}
 	cmd := exec.Command(inv.Bin, args...)
 	cmd.Dir = cwd
 	cmd.Env = env
@@ -347,9 +362,16 @@ func (t *Tree) Generate(inv Invocation, tag string) (*GenResult, error) {
 		}
 	}
 	res.Files = map[string][]byte{}
+	res.Touched = map[string]bool{}
 	for _, f := range GenFiles {
-		if b, err := os.ReadFile(filepath.Join(inv.Dir, f)); err == nil {
+		p := filepath.Join(inv.Dir, f)
+		if b, err := os.ReadFile(p); err == nil {
 			res.Files[f] = b
+		}
+		if st, err := os.Stat(p); err == nil && !st.IsDir() {
+			if b, ok := before[f]; !ok || !b.mod.Equal(st.ModTime()) || b.size != st.Size() {
+				res.Touched[f] = true
+			}
 		}
 	}
 	return res, nil
